@@ -58,3 +58,24 @@ def check(prop, attr, allowed, Result):
     status = "proved" if not bad else "refuted"
     return Result(f"{prop}/frame[{attr}]", "frame", status, function="(package scan)", line=bad[0][2] if bad else 0,
                   solver="frame_scan", detail={"write_sites": [f"{w[0]}:{w[1]}:L{w[2]}" for w in ws], "unexpected": [f"{w[0]}:{w[1]}:L{w[2]} {w[3]}" for w in bad]})
+
+
+def call_sites(method_names, files=None):
+    """all syntactic calls x.<name>(...) for name in method_names: (file, enclosing function, line, text)"""
+    res = []
+    for rel in files or extract.all_repo_files():
+        tree, src = extract.parse_file(rel)
+        if not any(m in src for m in method_names):
+            continue
+        enc = _enclosing(tree)
+        for x in ast.walk(tree):
+            if isinstance(x, ast.Call) and isinstance(x.func, ast.Attribute) and x.func.attr in method_names:
+                res.append((rel, enc.get(id(x), "?"), x.lineno, ast.unparse(x)[:70]))
+    return sorted(set(res))
+
+
+def check_call_sites(prop, label, method_names, allowed, Result, files=None):
+    cs = call_sites(method_names, files)
+    bad = [c for c in cs if f"{c[0]}:{c[1]}" not in allowed]
+    return Result(f"{prop}/call-sites[{label}]", "frame", "proved" if not bad else "refuted", function="(package scan)", line=bad[0][2] if bad else 0,
+                  solver="frame_scan", detail={"call_sites": [f"{c[0]}:{c[1]}:L{c[2]}" for c in cs], "unexpected": [f"{c[0]}:{c[1]}:L{c[2]} {c[3]}" for c in bad]})
